@@ -56,9 +56,9 @@ def summary(qualname):
     return deco
 
 
-def loop(qualname, anchor, invariant, decreases=None, havoc=None, label=None, ghost_step=None):
+def loop(qualname, anchor, invariant, decreases=None, havoc=None, label=None, ghost_step=None, callee_frame=None):
     REGISTRY["loops"].setdefault(qualname, []).append(
-        dict(anchor=anchor, invariant=invariant, decreases=decreases, havoc=havoc, label=label, ghost_step=ghost_step))
+        dict(anchor=anchor, invariant=invariant, decreases=decreases, havoc=havoc, label=label, ghost_step=ghost_step, callee_frame=callee_frame))
 
 
 class SpecRaise(Exception):
